@@ -489,7 +489,7 @@ class Ctx:
     # Direction A for state machines: the labelled state graph explored by TLC
     # -------------------------------------------------------------------------------
     def explore_graph(self, module, cfg, label, on_edge, consts=None, workers=1, timeout=3000, on_meta=None,
-                      need_actions=(), emit=True):
+                      need_actions=(), emit=True, coverage=True):
         """Model-check a state machine spec; every explored transition is printed by the spec's
         ACTION_CONSTRAINT as "EMIT {src, ev, dst, ...}" and handed to on_edge(dict)."""
         wd = self.workdir(f"mc-{label}")
@@ -506,7 +506,7 @@ class Ctx:
             elif s.startswith("META ") and on_meta:
                 on_meta(json.loads(s[5:]))
 
-        r = run_tlc(wd, module + ".tla", cfg, workers=workers, line_cb=cb, coverage=True, timeout=timeout, xmx="12g")
+        r = run_tlc(wd, module + ".tla", cfg, workers=workers, line_cb=cb, coverage=coverage, timeout=timeout, xmx="12g")
         if r["errors"] or not r["finished"]:
             raise MachineryError(f"TLC failed on {module}/{cfg}: {r['errors'][:16]} :: {r['cmd']}")
         self.states += r["distinct"]
@@ -514,7 +514,7 @@ class Ctx:
         for a, (d, g) in r["coverage"].items():
             self.actions[f"{module}.{a}"] = self.actions.get(f"{module}.{a}", 0) + g
         for a in need_actions:
-            if not r["coverage"].get(a, (0, 0))[1]:
+            if coverage and not r["coverage"].get(a, (0, 0))[1]:
                 raise MachineryError(f"vacuity: action {a} of {module} never taken")
         self.note(f"{label}: TLC explored {r['distinct']} distinct states / {r['generated']} transitions of {module} "
                   f"({cfg}), all invariants and action properties hold on the specification; {n[0]} transitions emitted")
